@@ -59,20 +59,20 @@ def run(tier, seed, res):
     res.rule = RULE
     res.assumptions = ["identifiers are >= 1 (lookup(0) is outside the callers' domain: slot 0 of the array is never initialised)",
                        "register only with an identifier obtained from reserve_id for that taskpool; a registered taskpool is unregistered before it reserves again",
-                       "the registry is process-global: every single-process case runs in a forked child starting from the pristine registry",
+                       "the registry is process-global and only parsec_fini resets it: cases either run in a forked child starting from the pristine registry or continue one modelled history per process",
                        "concurrent part: sequential consistency at atomic-operation granularity under dsched"]
     n = 16
-    per = 1300 if quick else 125000
+    per = 120 if quick else 60000          # forked cases: fork + wait is two scheduling events per case, slow on a loaded machine
     perturb = {"MALLOC_PERTURB_": "90"}     # no ASan in the forked runs: let glibc fill fresh heap memory with a pattern
     jobs = [dict(cmd=[f, "rc"], env=dict(perturb, RC_PARAMS="seed=%d max_success=%d max_size=100" % (seed * 131 + i, per)), tag="rc") for i in range(n)]
     wr = core.run_workers(PROP, jobs, san=False)
     res.absorb(wr, "seq")
     collect(res, wr)
-    jobs = [dict(cmd=[b, "long"], env={"RC_PARAMS": "seed=%d max_success=%d max_size=100" % (seed * 139 + i, per // 2)}, tag="long") for i in range(n // 2)]
+    jobs = [dict(cmd=[b, "long"], env={"RC_PARAMS": "seed=%d max_success=%d max_size=100" % (seed * 139 + i, 1500 if quick else 150000)}, tag="long") for i in range(n)]
     wr = core.run_workers(PROP, jobs)
     res.absorb(wr, "long")
     collect(res, wr)
-    per = 500 if quick else 50000
+    per = 60 if quick else 30000
     jobs = [dict(cmd=[f, "rcc"], env=dict(perturb, RC_PARAMS="seed=%d max_success=%d max_size=100" % (seed * 137 + i, per)), tag="rcc") for i in range(n)]
     wr = core.run_workers(PROP, jobs, san=False)
     res.absorb(wr, "con")
@@ -83,7 +83,7 @@ def run(tier, seed, res):
     res.absorb(wr, "stress")
     collect(res, wr)
     # MPI part
-    cases = _mpi_cases(seed, 12 if quick else 400)
+    cases = _mpi_cases(seed, 10 if quick else 400)
     rd = core.run_dir(PROP)
     jobs = []
     for i, rounds in enumerate(cases):
@@ -91,7 +91,7 @@ def run(tier, seed, res):
         with open(p, "w") as f:
             f.write(_mpi_text(rounds))
         jobs.append(dict(cmd=["mpiexec", "--oversubscribe", "-n", str(len(rounds[0])), m, p], tag="mpi", timeout=300))
-    wr = core.run_workers(PROP, jobs, san=False, max_parallel=4)
+    wr = core.run_workers(PROP, jobs, san=False, max_parallel=5)
     res.absorb(wr, "mpi")
     for f in wr.failures:
         res.violations.append(core.Violation(f["msg"], replay_text=f["replay_text"]))
